@@ -7,6 +7,7 @@ import AnyTLS.Lemmas.Session
 import AnyTLS.Lemmas.Frame
 import AnyTLS.Props.C02
 import AnyTLS.Props.C03
+import AnyTLS.Props.C11
 
 namespace AnyTLS.C01
 open AnyTLS AnyTLS.Gen
@@ -340,5 +341,14 @@ example : keeps 5 [{ cmd := .push, sid := 5, data := [1] }, { cmd := .fin, sid :
   intro f hf
   simp only [List.mem_cons, List.mem_nil_iff, or_false] at hf
   rcases hf with h | h | h <;> subst h <;> simp [quietCmd]
+
+/-- T1.7 `data_finds_new_stream` (interleaving model M13): the step that submits a stream's SYN has
+registered its inbound queue, so data that arrives at ANY later moment — also while the opener is
+still inside the SYN write — is queued for its reader (`rdOf_push`), never dropped as "unknown stream". -/
+theorem data_finds_new_stream (cs cs' : CS) (t : Nat) (hpc : (cs.task t).pc = .openChecked) (hm : micro cs t = some cs') :
+    tblGet cs'.s.streams cs.s.nextSid = some cs.s.objs.length ∧ tblGet cs'.s.recv cs.s.nextSid = some cs.s.objs.length ∧
+    (cs'.task t).submitted = (cs.task t).submitted ++ [synBytes cs.s.nextSid] :=
+  let h := AnyTLS.C11.registered_before_syn cs cs' t hpc hm
+  ⟨h.1, h.2.1, h.2.2.2.1⟩
 
 end AnyTLS.C01
